@@ -282,7 +282,17 @@ def decide(pid, tier, seed, P, vres, kres, kmeta, vac, t0, evdir):
             discharged += max(0, len(names) - len(bad))
             rec['failed'] = sorted(bad)
         else:
-            undecided.append('%s: %s' % (r['unit'], r.get('reason', '')[:600]))
+            u_ = r.get('_unit_obj')
+            found = False
+            if u_ is not None and getattr(u_, 'oracle', None) and 'solver limit' in r.get('reason', ''):
+                # Z3 ran out of budget instead of refuting: let the executable contract decide on the real code
+                f = {'obligation': '%s/(solver limit)' % r['unit'], 'message': r.get('reason', ''), 'function': None, 'rendered': r.get('reason', '')}
+                path, found = verus_counterexample(r, f, evdir, pid)
+                if found:
+                    obligations += len(names)
+                    violations.append({'obligation': f['obligation'] + ' -- proof no longer goes through and the replay oracle finds a failing input', 'replay': path, 'found_input': True, 'message': f['message']})
+            if not found:
+                undecided.append('%s: %s' % (r['unit'], r.get('reason', '')[:600]))
         per_unit.append(rec)
         # keep the extraction diff next to the evidence (DESIGN §3.2 E8)
         if r.get('diffs'):
